@@ -151,6 +151,8 @@ def rel_diff(a: np.ndarray, b: np.ndarray, scale: float | None = None) -> float:
         return float("inf")
     if a.size == 0:
         return 0.0
+    if a.dtype == bool or b.dtype == bool:
+        return 0.0 if np.array_equal(a, b) else float("inf")
     d = np.abs(a - b)
     if not np.all(np.isfinite(d)):
         return float("inf")
